@@ -27,6 +27,7 @@ type c17Scenario struct {
 	zero  bool // the loop's first pass does not wait (establishRegion)
 	batch bool
 	two   bool // two regions on two servers, a batch with one call each
+	swap  bool // ... in the other order
 	loops int  // > 1: that many regions on the failing server, one concurrent request each (attempts of the loops interleave)
 	setup func(cl *verifsim.Cluster, mark func())
 	opts  []Option
@@ -175,6 +176,7 @@ func TestVerifC17(t *testing.T) {
 	}
 	for rep2 := 0; rep2 < 6; rep2++ { // the order in which SendBatch waits for the servers is Go map order: several runs
 		x := twoServers
+		x.swap = rep2%2 == 1
 		x.name = fmt.Sprintf("%s/%d", twoServers.name, rep2)
 		all = append(all, x)
 	}
@@ -221,7 +223,11 @@ func TestVerifC17(t *testing.T) {
 				if s.two {
 					p1, _ := hrpc.NewPut(ctx, []byte("t"), []byte("a!"), map[string]map[string][]byte{"f": {"q": []byte("v")}})
 					p2, _ := hrpc.NewPut(ctx, []byte("t"), []byte("n!"), map[string]map[string][]byte{"f": {"q": []byte("v")}})
-					c.SendBatch(ctx, []hrpc.Call{p1, p2})
+					if s.swap { // SendBatch waits for its servers in (nearly always) batch order: both orders are run
+						c.SendBatch(ctx, []hrpc.Call{p2, p1})
+					} else {
+						c.SendBatch(ctx, []hrpc.Call{p1, p2})
+					}
 				} else if s.loops > 1 {
 					var wg sync.WaitGroup
 					for i := 0; i < s.loops; i++ {
